@@ -600,8 +600,10 @@ def finish(ctx, coverage=None, assumptions=None, explanation=None):
         'wall_s': round(time.time() - ctx.t0, 2),
         'violations': len(ctx.violations),
     }
-    os.makedirs(os.path.join(VERIF, 'evidence'), exist_ok=True)
-    with open(os.path.join(VERIF, 'evidence', ctx.pid + '.json'), 'w') as f:
+    # evidence/ holds what the checks found on /repo itself; a run against a scratch copy (tools/run_seed.sh) writes elsewhere
+    evdir = os.environ.get('VERIF_EVIDENCE_DIR') or os.path.join(VERIF, 'evidence')
+    os.makedirs(evdir, exist_ok=True)
+    with open(os.path.join(evdir, ctx.pid + '.json'), 'w') as f:
         json.dump(ev, f, indent=1, sort_keys=True)
     if ctx.violations:
         log('%s: %d violation(s)' % (ctx.pid, len(ctx.violations)))
